@@ -136,6 +136,14 @@ func c12Step(w *World, h *HistRun, i int) (fs []Finding) {
 			}
 		}
 		ok := code == 204 && len(st.Notes) == 1
+		if wantURI == "" {
+			// the consumer registered no notification URI: there is nobody to notify (the request is still answered,
+			// and - checked by the steps that follow - leaves the subscriber usable)
+			if len(st.Notes) != 0 || code == 0 {
+				fs = append(fs, Finding{"recharge-contract/no-notify-uri", fmt.Sprintf("step %d %s answered %d, notifications %+v (no notification URI is registered)", i, st.Op, code, st.Notes)})
+			}
+			break
+		}
 		if ok {
 			n := st.Notes[0]
 			var body struct {
@@ -285,6 +293,17 @@ func init() {
 					return []Op{{K: "recharge", U: 0, RG: 1, Amt: 100}, {K: "update", S: 0, MUs: []MU{{RG: 1, Req: 100, Conts: []Cont{{Vol: 0, Seq: int32(2000 + d)}}}}, Seq: int32(20 + d)}}
 				}}
 			RunBFS(pool, sp2, rep, &st)
+		}
+		{
+			// a consumer that registers no notification URI at all: recharges, then further requests of the session
+			cr := mkCreate(0, "smf1")
+			cr.Notify, cr.Seq = "", 3
+			sp3 := BFSSpec{Name: "no-notify-uri", Check: "C12", Oracle: "C12", Cfg: sp.Cfg, Supis: sp.Supis, Prefix: []Op{cr}, MaxDepth: 3,
+				Alphabet: func(raw json.RawMessage, d int) []Op {
+					return []Op{{K: "recharge", U: 0, RG: 1, Amt: 100}, {K: "recharge", U: 0, RG: 2},
+						{K: "update", S: 0, MUs: []MU{{RG: 1, Req: 100, Conts: []Cont{{Vol: 0, Seq: int32(2100 + d)}}}}, Seq: int32(30 + d)}}
+				}}
+			RunBFS(pool, sp3, rep, &st)
 		}
 		rep.Cov["states"] = st.States
 		rep.Cov["transitions"] = st.Transitions
